@@ -336,6 +336,18 @@ fn read_inputs(tier: Tier) -> Vec<ReadInput> {
         let bytes = synth(2, &d, &data);
         v.push(ReadInput { name: format!("npy <f8 v2 with a header of {} bytes ({} bytes)", d.len(), bytes.len()), container: None, bytes: Arc::new(bytes), threads: 1, first_block: 0 });
     }
+    // mostly-zero files (a spectrum is often sparse): a few non-zero values between runs of zero bytes
+    for (descr, size, shape, version) in [("<f8", 8usize, vec![5usize, 5], 1u8), (">i2", 2, vec![31], 1), ("<f4", 4, vec![3, 3, 3], 2)] {
+        let n: usize = shape.iter().product();
+        let mut data: Vec<u8> = vec![0u8; n * size];
+        for k in [0usize, n / 2, n - 1] {
+            for b in 0..size {
+                data[k * size + b] = (7 * k + 3 * b + 1) as u8 & 0x3f;
+            }
+        }
+        let bytes = synth(version, &dict_text(descr, false, &shape, &np), &data);
+        v.push(ReadInput { name: format!("npy {descr} v{version} shape {shape:?}, mostly zeros ({} bytes)", bytes.len()), container: None, bytes: Arc::new(bytes), threads: 1, first_block: 0 });
+    }
     for (descr, size, shape, version) in [("<f8", 8usize, vec![3usize, 4], 1u8), (">i2", 2, vec![7], 2), ("|u1", 1, vec![2, 3, 2], 3), ("<f8", 8, vec![40, 50], 1), (">f8", 8, vec![2000], 2)] {
         let n: usize = shape.iter().product();
         let data: Vec<u8> = (0..n * size).map(|b| (b * 5 + 3) as u8 & 0x3f).collect();
@@ -363,13 +375,17 @@ fn write_spectra() -> Vec<RefArray> {
         RefArray::from_fn(&[40], |f, _| (f as f64).sqrt()),
         RefArray::from_fn(&[3, 1], |f, _| -(f as f64)),
         RefArray::from_fn(&[1, 1, 1], |_, _| f64::INFINITY),
+        // mostly zeros: runs of neighbouring zero entries between a few counts, and whole-number
+        // counts only (what create writes at precision 0)
+        RefArray::from_fn(&[5, 5], |f, _| if f == 0 || f == 12 || f == 24 { (f + 3) as f64 } else { 0.0 }),
+        RefArray::from_fn(&[30], |f, _| if f % 11 == 5 { 4.0 } else { 0.0 }),
         // beyond 512 and 4096 values (batching thresholds of writers); 3.25 carries a 0x0A byte
         RefArray::from_fn(&[1000], |f, _| if f % 97 == 3 { 3.25 } else { f as f64 + 0.5 }),
         RefArray::from_fn(&[70, 70], |f, _| (f % 1013) as f64 * 0.25 + 1.0),
     ]
 }
 
-const FIRST_BIG_WRITE: usize = 8;
+const FIRST_BIG_WRITE: usize = 10;
 
 fn write_with(x: &RefArray, format: Format, p: usize, w: &mut SeamWriter) -> Result<(), String> {
     let scs = scs_from_ref(x);
